@@ -146,7 +146,11 @@ class C15(Prop):
             "several sites, factors drawn from Hermitian / real / complex-symmetric / real-symmetric / identity / diagonal / "
             "unitary / generic matrices (every labelling shortcut is taken), rational prefactors, symbolic rates, labels "
             "shared between the Hamiltonian and the jump dictionary, bare TensorProducts as jump operators, non-default "
-            "suffixes; malformed stream: labels missing from a dictionary and ket/bra identifier collisions (both sides "
+            "suffixes; caller histories (about 40% of the well-formed cases): the caller owns ONE ndarray per operator label "
+            "and ONE dict per mapping, generates Lindbladians for 1..2 earlier sweep points, refills the same objects in place "
+            "(contents of any class -> any class, rates changed) and generates again, with the same Hamiltonian object or a new "
+            "one around the same buffers; every point of the history is judged by the dense oracle, the last one also by the "
+            "model tie; a further generation after the judged one must not change it; malformed stream: labels missing from a dictionary and ket/bra identifier collisions (both sides "
             "must raise the same exception). non-trivial = at least one term generated; distinct by case content")
     clauses = [
         ("F", "GKSL form: for the model with bug_sign=false, all Hamiltonians, any number of jump operators on any sites "
@@ -169,7 +173,9 @@ class C15(Prop):
         ("O", "Hermiticity and trace preservation of expm(-i t L): validated numerically with scipy expm on random density "
               "matrices (proved part: trace annihilation by the generator)"),
         ("V", "the dense matrix of the generated terms (ket sites then bra sites, Kronecker order) equals the GKSL matrix of the "
-              "property text; exact_lindbladian equals it too (both: differential oracle, numpy)"),
+              "property text; exact_lindbladian equals it too (both: differential oracle, numpy); also at every point of a "
+              "caller history with operator arrays / mappings refilled in place between the generations (the model is a "
+              "function of the current contents only: state kept by the library between calls is outside the theorems)"),
     ]
     trusted_base = [
         "vectorisation convention: a term K (x) B on ket (x) bra acts on row-major vec(rho) as K rho B^T (checked numerically by the oracle)",
@@ -272,7 +278,8 @@ class C15(Prop):
                 jops.append({"bare": False, "frac": [fr.numerator, fr.denominator], "coeff": rng.choice(jcoeffs)[0], "tp": tp})
         suffix = rng.choice([["_ket", "_bra"], ["_ket", "_bra"], ["_k", "_b"], ["K", "Bra"]])
         case = {"sites": sites, "hterms": hterms, "hconv": hconv, "hcoeffs": hcoeffs, "jops": jops, "jdict": jdict,
-                "jcoeffs": jcoeffs, "suffix": suffix, "hermitian": hermitian, "seed": rng.randrange(10 ** 6), "malformed": None}
+                "jcoeffs": jcoeffs, "suffix": suffix, "hermitian": hermitian, "seed": rng.randrange(10 ** 6), "malformed": None,
+                "history": None}
         if malformed:
             kind = rng.choice(["hlabel", "jlabel", "collision"])
             if kind == "hlabel":
@@ -295,7 +302,47 @@ class C15(Prop):
                 case["jops"] = [{"bare": False, "frac": [1, 1], "coeff": jcoeffs[0][0], "tp": [["a", lab[0]], ["ab", lab[0]]]}]
                 case["suffix"] = ["bc", "c"]
             case["malformed"] = kind
+        elif rng.random() < 0.4:
+            case["history"] = self._gen_history(rng, nprs, case)
         return case
+
+    @staticmethod
+    def _gen_history(rng, nprs, case):
+        """A caller-side history (parameter sweep with preallocated buffers): the caller owns ONE ndarray per operator label
+        and ONE dictionary per mapping, generates Lindbladians for 1..2 earlier sweep points, refills the SAME array / dict
+        objects in place (buf[...] = new content, mapping[name] = new value) and then generates the Lindbladian of this
+        case.  Every point of the sweep is judged.  The earlier contents are drawn from all matrix classes, so a refill can
+        move a label from any labelling shortcut to any other (symmetric <-> non-symmetric, real <-> complex,
+        Hermitian <-> generic, identity <-> non-identity)."""
+        mats = {}
+        for lab, m, kind in case["hconv"] + case["jdict"]:
+            mats.setdefault(lab, (m, kind))
+        points = []
+        for _ in range(rng.choice([1, 1, 2])):
+            content = {}
+            for lab, (m, kind) in mats.items():
+                if rng.random() < 0.2:
+                    content[lab] = [m, kind]                      # this buffer is not touched between the two points
+                else:
+                    k2 = rng.choice(KINDS)
+                    content[lab] = [enc(rand_matrix(nprs, len(m), k2)), k2]
+            pt = {"hconv": [[h[0]] + content[h[0]] for h in case["hconv"]],
+                  "jdict": [[h[0]] + content[h[0]] for h in case["jdict"]],
+                  "hcoeffs": [[c[0], c[1] if (c[0] == "1" or rng.random() < 0.5) else [rng.choice([-1.5, 0.5, 2.0, 3.0]), 0.0]]
+                              for c in case["hcoeffs"]],
+                  "jcoeffs": [[c[0], c[1] if (c[0] == "1" or rng.random() < 0.5) else [rng.choice([0.25, 0.5, 1.0, 2.0, 3.0]), 0.0]]
+                              for c in case["jcoeffs"]]}
+            points.append(pt)
+        # same_ham: the Hamiltonian object (holding the caller's dictionaries) is reused for every point;
+        # otherwise a new Hamiltonian is built around the same buffers for every point
+        return {"points": points, "same_ham": rng.random() < 0.5}
+
+    @staticmethod
+    def _point_case(case, pt):
+        """the case description of an earlier sweep point (same terms / jump operators, the contents of that point)"""
+        c = dict(case)
+        c.update(hconv=pt["hconv"], jdict=pt["jdict"], hcoeffs=pt["hcoeffs"], jcoeffs=pt["jcoeffs"], history=None)
+        return c
 
     def nontrivial(self, case):
         return bool(case["hterms"] or case["jops"])
@@ -313,12 +360,40 @@ class C15(Prop):
                 kinds = {l[0]: l[2] for l in x["jdict"]}
                 for s, l in j["tp"]:
                     c["jump factor:" + kinds.get(l, "?")] += 1
+            hist = x.get("history")
+            if hist:
+                c["history: earlier sweep points on the same buffers:%d" % len(hist["points"])] += 1
+                c["history: same Hamiltonian object reused" if hist["same_ham"] else "history: new Hamiltonian around the same buffers"] += 1
+                used_h = {l for t in x["hterms"] for _, l in t[3]}
+                used_j = {l for j in x["jops"] for _, l in j["tp"]}
+                seq = hist["points"] + [x]
+                for a, b in zip(seq, seq[1:]):
+                    for which, used in (("hconv", used_h), ("jdict", used_j)):
+                        for ha, hb in zip(a[which], b[which]):
+                            if ha[0] not in used:
+                                continue
+                            ca, cb = self._classes(ha[1]), self._classes(hb[1])
+                            for name, fa, fb in zip(("symmetric", "real", "hermitian", "identity"), ca, cb):
+                                if fa != fb:
+                                    c["history: refill of a used %s label %s -> %s" % (
+                                        "Hamiltonian" if which == "hconv" else "jump", name if fa else "non-" + name,
+                                        name if fb else "non-" + name)] += 1
         return dict(c)
+
+    @staticmethod
+    def _classes(m):
+        a = np.array([[complex(x[0], x[1]) for x in row] for row in m])
+        return (bool(np.array_equal(a, a.T)), bool(np.all(a.imag == 0)), bool(np.array_equal(a, a.conj().T)),
+                bool(np.array_equal(a, np.eye(len(a)))))
 
     def sample_repr(self, case):
         c = dict(case)
         c["hconv"] = [[h[0], h[2]] for h in case["hconv"]]
         c["jdict"] = [[h[0], h[2]] for h in case["jdict"]]
+        if case.get("history"):
+            c["history"] = {"same_ham": case["history"]["same_ham"],
+                            "points": [{"hconv": [[h[0], h[2]] for h in pt["hconv"]], "jdict": [[h[0], h[2]] for h in pt["jdict"]],
+                                        "hcoeffs": pt["hcoeffs"], "jcoeffs": pt["jcoeffs"]} for pt in case["history"]["points"]]}
         return c
 
     # -------------------------------------------------------------------------------
@@ -341,11 +416,102 @@ class C15(Prop):
                 table.append((e, bool(find_sym({"x": val})["x"])))
         return table
 
+    @staticmethod
+    def _dense_of_terms(case, lind):
+        """dense matrix of the generated terms: ket sites then bra sites"""
+        sites = case["sites"]
+        ks, bs = case["suffix"]
+        order = [(s + ks, d) for s, d in sites] + [(s + bs, d) for s, d in sites]
+        D = int(np.prod([d for _, d in sites]))
+        Lg = np.zeros((D * D, D * D), dtype=complex)
+        known = {k for k, _ in order}
+        for fr, c, tp in lind.terms:
+            m = np.ones((1, 1))
+            if any(k not in known for k in tp):
+                raise KeyError(f"identifier {[k for k in tp if k not in known]} is no ket/bra copy of a site")
+            for k, d in order:
+                m = np.kron(m, lind.conversion_dictionary[tp[k]] if k in tp else np.eye(d))
+            Lg = Lg + float(fr) * lind.coeffs_mapping[c] * m
+        return Lg
+
+    def _dense_exact(self, case, ob):
+        """the dense construction on the operators named by the inputs, rate = coefficient^2"""
+        from pytreenet.operators.exact_operators import exact_lindbladian
+        try:
+            H, Ls, gammas = self._dense_inputs(case)
+            cs = [np.sqrt(complex(g)) for g in gammas]
+            cs = [c.real if c.imag == 0 else c for c in cs]
+            ob["L_exact"] = exact_lindbladian(H, [(c, L) for c, L in zip(cs, Ls)])
+        except Exception as e:  # noqa
+            ob["exact_exception"] = f"{type(e).__name__}: {e}"
+
+    @staticmethod
+    def _make_terms(case):
+        hterms = [(Fraction(t[0], t[1]), t[2], TensorProduct(dict(map(tuple, t[3])))) for t in case["hterms"]]
+        jops = []
+        for j in case["jops"]:
+            tp = TensorProduct(dict(map(tuple, j["tp"])))
+            jops.append(tp if j["bare"] else (Fraction(*j["frac"]), j["coeff"], tp))
+        return hterms, jops
+
+    def _run_history(self, case, lb):
+        """Runs the earlier sweep points of case["history"] on caller-owned buffers; returns the live objects
+        (hconv, hco, jdict, jco, ham) refilled IN PLACE with the contents of the case itself, and the observations of the
+        earlier points."""
+        hist = case["history"]
+        pcases = [self._point_case(case, pt) for pt in hist["points"]] + [case]
+        contents = [self._inputs(pc) for pc in pcases]
+        # one buffer per label; a label of both dictionaries with the same content is ONE array put into both
+        def buf(ms):
+            return np.zeros(ms[0].shape, dtype=complex if any(np.iscomplexobj(m) for m in ms) else float)
+        hconv = {lab: buf([c[0][lab] for c in contents]) for lab in contents[-1][0]}
+        jdict = {}
+        for lab in contents[-1][2]:
+            if lab in hconv and all(c[0][lab].shape == c[2][lab].shape and np.array_equal(c[0][lab], c[2][lab]) for c in contents):
+                jdict[lab] = hconv[lab]
+            else:
+                jdict[lab] = buf([c[2][lab] for c in contents])
+        hco, jco = {}, {}
+        ham = None
+        prev = []
+        for k, (pc, (c_h, c_hco, c_j, c_jco)) in enumerate(zip(pcases, contents)):
+            for lab, m in c_h.items():
+                hconv[lab][...] = m
+            for lab, m in c_j.items():
+                jdict[lab][...] = m
+            for name, v in c_hco.items():
+                hco[name] = v
+            for name, v in c_jco.items():
+                jco[name] = v
+            if ham is None or not hist["same_ham"]:
+                hterms, jops = self._make_terms(case)
+                ham = Hamiltonian(hterms, hconv, hco)
+            if pc is case:
+                break
+            po = {}
+            try:
+                lind = lb.generate_lindbladian(ham, jops, jdict, jco, ket_suffix=case["suffix"][0], bra_suffix=case["suffix"][1])
+                po["L_gen"] = self._dense_of_terms(case, lind)
+            except Exception as e:  # noqa
+                po["exception"] = f"{type(e).__name__}: {str(e)[:200]}"
+            self._dense_exact(pc, po)
+            prev.append(po)
+        return hconv, hco, jdict, jco, ham, jops, prev
+
     def _one(self, case):
         from pytreenet.operators import lindbladian as lb
-        from pytreenet.operators.exact_operators import exact_lindbladian
-        hconv, hco, jdict, jco = self._inputs(case)
+        ref_hconv, ref_hco, ref_jdict, ref_jco = self._inputs(case)
         ob = {}
+        if case.get("history"):
+            # the caller's live buffers / mappings, refilled in place after the earlier sweep points
+            hconv, hco, jdict, jco, ham, jops, ob["prev"] = self._run_history(case, lb)
+            call_jdict, call_jco = jdict, jco
+        else:
+            hconv, hco, jdict, jco = ref_hconv, ref_hco, ref_jdict, ref_jco
+            ref_hconv, ref_hco, ref_jdict, ref_jco = self._inputs(case)
+            hterms, jops = self._make_terms(case)
+            ham = Hamiltonian(hterms, dict(hconv), dict(hco))
+            call_jdict, call_jco = dict(jdict), dict(jco)
         # classifier flags from the real functions
         ob["h_sym"] = [[k, bool(v)] for k, v in lb._find_symmetric_operators(hconv).items()]
         real = lb._find_real_operators(jdict)
@@ -354,14 +520,8 @@ class C15(Prop):
         ob["j_flags"] = [[k, bool(real[k]), bool(herm[k]), bool(idd[k])] for k in jdict]
         ob["j_sym"] = self._jsym_table(jdict, lb._find_symmetric_operators)
         # the call
-        ham = Hamiltonian([(Fraction(t[0], t[1]), t[2], TensorProduct(dict(map(tuple, t[3])))) for t in case["hterms"]],
-                          dict(hconv), dict(hco))
-        jops = []
-        for j in case["jops"]:
-            tp = TensorProduct(dict(map(tuple, j["tp"])))
-            jops.append(tp if j["bare"] else (Fraction(*j["frac"]), j["coeff"], tp))
         try:
-            lind = lb.generate_lindbladian(ham, jops, dict(jdict), dict(jco), ket_suffix=case["suffix"][0], bra_suffix=case["suffix"][1])
+            lind = lb.generate_lindbladian(ham, jops, call_jdict, call_jco, ket_suffix=case["suffix"][0], bra_suffix=case["suffix"][1])
         except Exception as e:  # noqa
             ob["exception"] = type(e).__name__
             ob["exception_msg"] = str(e)[:200]
@@ -382,35 +542,14 @@ class C15(Prop):
         ob["conv"] = {k: np.asarray(v) for k, v in lind.conversion_dictionary.items()}
         ob["coeff_keys"] = list(lind.coeffs_mapping.keys())
         ob["coeffs"] = {k: complex(v) for k, v in lind.coeffs_mapping.items()}
-        ob["inputs_untouched"] = bool(list(ham.conversion_dictionary) == list(hconv) and len(ham.terms) == len(case["hterms"])
-                                      and list(ham.coeffs_mapping.items()) == list(hco.items())
-                                      and all(np.array_equal(ham.conversion_dictionary[k], hconv[k]) for k in hconv))
-        # dense matrix of the generated terms: ket sites then bra sites
-        sites = case["sites"]
-        ks, bs = case["suffix"]
-        order = [(s + ks, d) for s, d in sites] + [(s + bs, d) for s, d in sites]
-        D = int(np.prod([d for _, d in sites]))
-        Lg = np.zeros((D * D, D * D), dtype=complex)
+        ob["inputs_untouched"] = bool(list(ham.conversion_dictionary) == list(ref_hconv) and len(ham.terms) == len(case["hterms"])
+                                      and list(ham.coeffs_mapping.items()) == list(ref_hco.items())
+                                      and all(np.array_equal(ham.conversion_dictionary[k], ref_hconv[k]) for k in ref_hconv))
         try:
-            for fr, c, tp in lind.terms:
-                m = np.ones((1, 1))
-                known = {k for k, _ in order}
-                if any(k not in known for k in tp):
-                    raise KeyError(f"identifier {[k for k in tp if k not in known]} is no ket/bra copy of a site")
-                for k, d in order:
-                    m = np.kron(m, lind.conversion_dictionary[tp[k]] if k in tp else np.eye(d))
-                Lg = Lg + float(fr) * lind.coeffs_mapping[c] * m
-            ob["L_gen"] = Lg
+            ob["L_gen"] = self._dense_of_terms(case, lind)
         except Exception as e:  # noqa
             ob["dense_exception"] = f"{type(e).__name__}: {e}"
-        # the dense construction on the operators named by the inputs, rate = coefficient^2
-        try:
-            H, Ls, gammas = self._dense_inputs(case)
-            cs = [np.sqrt(complex(g)) for g in gammas]
-            cs = [c.real if c.imag == 0 else c for c in cs]
-            ob["L_exact"] = exact_lindbladian(H, [(c, L) for c, L in zip(cs, Ls)])
-        except Exception as e:  # noqa
-            ob["exact_exception"] = f"{type(e).__name__}: {e}"
+        self._dense_exact(case, ob)
         return ob
 
     @staticmethod
@@ -633,29 +772,55 @@ class C15(Prop):
             return f"exact_lindbladian raised {ob['exact_exception']}"
         if not ob["inputs_untouched"]:
             return "generate_lindbladian modified the caller's Hamiltonian"
+        # every point of the caller's history is judged: the earlier sweep points (contents of that point), then this case
+        points = [(f"history point {k} of {len(ob['prev'])} (before the in-place refill): ", self._point_case(case, pt), po)
+                  for k, (pt, po) in enumerate(zip((case.get("history") or {}).get("points", []), ob.get("prev", [])))]
+        points.append(("after in-place refills of the caller's operator buffers / mappings: " if case.get("history") else "", case, ob))
+        flips, after = [], []
+        for prefix, pc, po in reversed(points):
+            if "exception" in po:
+                return f"{prefix}generate_lindbladian raised {po['exception']}"
+            if "exact_exception" in po:
+                return f"{prefix}exact_lindbladian raised {po['exact_exception']}"
+            bad, fl, gksl, H, gammas = self._matrix_status(pc, po)
+            if bad:
+                return prefix + bad
+            if fl:
+                flips.append((prefix, fl, pc, po, gksl))
+            after.append((prefix, pc, po, H, gammas))
+        if flips:
+            prefix, fl, pc, po, gksl = flips[0]
+            tr = self._trace_drift(po["L_gen"], pc)
+            return (f"[{KNOWN_SIGN}] {' and '.join(fl)}: the matrix equals the GKSL matrix except that the term "
+                    f"-1/2 1 (x) (L^dagger L)^T carries +1/2 (max deviation from GKSL "
+                    f"{float(np.max(np.abs(po['L_gen'] - gksl))):.3g}); trace of exp(-i t L) rho drifts by {tr:.3g}")
+        for prefix, pc, po, H, gammas in after:
+            scale = float(np.max(np.abs(po["L_gen"]), initial=1.0))
+            if not close(po["L_gen"], po["L_exact"], scale):
+                return prefix + "symbolic and dense constructions differ under rate = coefficient^2"
+            # consequences, on the matrix of the code: trace and Hermiticity preservation
+            d = self._evolution_check(po["L_gen"], pc, H, gammas)
+            if d:
+                return prefix + d
+        return None
+
+    def _matrix_status(self, case, ob):
+        """(violation message | None, [constructions that equal GKSL with exactly the known sign flipped], gksl, H, gammas)"""
         gksl, flipped, H, gammas = self._references(case)
         scale = float(np.max(np.abs(gksl), initial=1.0))
-        status = {}
+        flips = []
         for name, key in (("generate_lindbladian", "L_gen"), ("exact_lindbladian", "L_exact")):
             m = ob[key]
             if close(m, gksl, scale):
-                status[name] = "ok"
-            elif close(m, flipped, scale):
-                status[name] = "flip"
-            else:
-                dev = float(np.max(np.abs(m - gksl)))
-                return (f"{name}: matrix differs from the GKSL matrix by {dev:.3g} and is not the variant with only the "
-                        f"bra-side anticommutator sign flipped (differs from that by {float(np.max(np.abs(m - flipped))):.3g})")
-        flips = [k for k, v in status.items() if v == "flip"]
-        if flips:
-            tr = self._trace_drift(ob["L_gen"], case)
-            return (f"[{KNOWN_SIGN}] {' and '.join(flips)}: the matrix equals the GKSL matrix except that the term "
-                    f"-1/2 1 (x) (L^dagger L)^T carries +1/2 (max deviation from GKSL "
-                    f"{float(np.max(np.abs(ob['L_gen'] - gksl))):.3g}); trace of exp(-i t L) rho drifts by {tr:.3g}")
-        if not close(ob["L_gen"], ob["L_exact"], scale):
-            return "symbolic and dense constructions differ under rate = coefficient^2"
-        # consequences, on the matrix of the code: trace and Hermiticity preservation
-        return self._evolution_check(ob["L_gen"], case, H, gammas)
+                continue
+            if close(m, flipped, scale):
+                flips.append(name)
+                continue
+            dev = float(np.max(np.abs(m - gksl)))
+            return ((f"{name}: matrix differs from the GKSL matrix by {dev:.3g} and is not the variant with only the "
+                     f"bra-side anticommutator sign flipped (differs from that by {float(np.max(np.abs(m - flipped))):.3g})"),
+                    flips, gksl, H, gammas)
+        return None, flips, gksl, H, gammas
 
     @staticmethod
     def _rho(case):
